@@ -1,6 +1,7 @@
 // Compile-only probe: instantiates every generated table so that lines the compiler
 // rejects can be dropped by build_lib.gen_with_probe().
-#include "view.h"
+#include "view_put.h"
+#include "view_impl.cpp"
 using namespace Tins;
 namespace {
 template <class T> void use_entry(const uint8_t* b, uint32_t n) { T t(b, n); (void)t; }
